@@ -31,6 +31,9 @@ def check_prog(ctx, r, prog, n):
                 sig = info["payload"]
                 pnames = m["payload_names"] if m else ["payload"]
                 payload, pargs, _ = draw_payload(rng, prog, canon, sig, pnames)
+                if m is None and it % 2:
+                    # nobody decodes the payload of an outcome without a method: anything must pass through
+                    payload = rng.choice(["", b64(b"\xff\x00not json"), b64(b"{"), b64(rand_bytes(rng, 9))])
                 gas = rng.choice([0, 1, 2**64 - 1, rng.randrange(10**9)])
                 if ok:
                     events, mr = draw_events(rng), draw_msg_responses(rng)
